@@ -11,7 +11,7 @@ the unescaped name would match) and under the `components/` / `ui/widgets/` dire
 of two generated apps (one a nested package).  For every element of the product
   COMPONENTS.dirs {unset, [], [A], [A,B], [Path(A)], [(prefix,B)], [unnormalised A, A], [B, missing], [_under], [comp[1]], [A written with a `..` segment]}
   x STATICFILES_DIRS {[], [A], [(prefix,A), B]}  x INSTALLED_APPS {no app, one app, two apps incl. the nested one}
-  x COMPONENTS.app_dirs {default, ["components","ui/widgets"], []}  x BASE_DIR as {str, Path}
+  x COMPONENTS.app_dirs {default, ["components","ui/widgets"], []}  x BASE_DIR as {str, Path}  x COMPONENTS as {dict, ComponentsSettings object}
 (the effective directories follow the documented rule: dirs if set, else non-empty
 STATICFILES_DIRS, else BASE_DIR/components, plus `<app>/<app_dir>` where it exists) and every
 requested suffix, `get_component_files(suffix)` is called on the real code and compared,
@@ -136,17 +136,18 @@ LEGACY_OPTS = ["none", "A_str", "A_tuple_and_B"]
 APPS_OPTS = ["none", "one", "two_nested"]
 APP_DIRS_OPTS = ["default", "custom", "empty"]
 BASE_OPTS = ["str", "Path"]
+FORM_OPTS = ["dict", "settings_object"]  # COMPONENTS = {...} / COMPONENTS = ComponentsSettings(...)
 
 
 def config_names():
-    return ["/".join(c) for c in itertools.product(DIRS_OPTS, LEGACY_OPTS, APPS_OPTS, APP_DIRS_OPTS, BASE_OPTS)]
+    return ["/".join(c) for c in itertools.product(DIRS_OPTS, LEGACY_OPTS, APPS_OPTS, APP_DIRS_OPTS, BASE_OPTS, FORM_OPTS)]
 
 
 def make_config(tree, name):
     """-> (override_settings kwargs, expected roots [(fs root, module root dir, module prefix)]) from the documented rules:
     COMPONENTS.dirs if set (also when empty), else non-empty STATICFILES_DIRS, else BASE_DIR/components; entries may be
     str / Path / (prefix, path); missing directories are ignored; plus <app>/<app_dir> of every installed app where it exists."""
-    d_opt, l_opt, a_opt, ad_opt, b_opt = name.split("/")
+    d_opt, l_opt, a_opt, ad_opt, b_opt, f_opt = (name.split("/") + ["dict"])[:6]
     r, proj, apps = tree["roots"], tree["proj"], tree["apps"]
     comp = {"autodiscover": False}
     st = {"COMPONENTS": comp, "BASE_DIR": Path(proj) if b_opt == "Path" else proj}
@@ -180,6 +181,10 @@ def make_config(tree, name):
             cand = os.path.join(app_path[app], *ad.split("/"))
             if os.path.isdir(cand):
                 roots.append((cand, app_path[app], app))
+    if f_opt == "settings_object":
+        from django_components.app_settings import ComponentsSettings
+
+        st["COMPONENTS"] = ComponentsSettings(**comp)
     return st, roots
 
 
@@ -495,7 +500,7 @@ def run(ctx):
             "get_component_files", states=agg.states, transitions=agg.transitions, validated=agg.validated, nontrivial=agg.nontrivial,
             observed_distinct=len(agg.observed), expected=agg.expected,
             bound={"configurations": len(names), "dirs": DIRS_OPTS, "legacy_staticfiles_dirs": LEGACY_OPTS, "apps": APPS_OPTS, "app_dirs": APP_DIRS_OPTS,
-                   "base_dir_type": BASE_OPTS, "suffixes": [repr(x) for x in SUFFIXES], "paths_under_dirs": npaths,
+                   "base_dir_type": BASE_OPTS, "components_setting_form": FORM_OPTS, "suffixes": [repr(x) for x in SUFFIXES], "paths_under_dirs": npaths,
                    "parts": PARTS_THOROUGH if ctx.tier == "thorough" else PARTS_QUICK, "depth": 3 if ctx.tier == "thorough" else 2,
                    "files": FILES, "dot_paths_checked_with_find_spec": dots},
             samples=[{"config": "A_B/none/none/empty/str", "suffix": ".py", "selected": ["components/pkg/a.py -> components.pkg.a"],
